@@ -442,7 +442,10 @@ def gen_postprocessing(rng: Random, tag: str) -> dict:
     elif kind == "template":
         t = {"type": "template", "template": "[" + tag + " {{ query }} L={{ rule.level }} V={{ pipeline.vars }} " + tag + "]"}
     else:
-        t = {"type": "json", "json_template": '{"q": "%QUERY%", "t": "' + tag + '"}'}
+        t = {"type": "json", "json_template": pick(rng, [
+            '{"q": "%QUERY%", "t": "' + tag + '"}',
+            '{"qs": ["%QUERY%"], "t": "' + tag + '"}',                      # the placeholder inside an array
+            '{"a": [{"q": "%QUERY%"}, ["x", "%QUERY%"]], "t": "' + tag + '"}'])}
     if chance(rng, 0.25):
         t["rule_conditions"] = [rule_condition(rng)]
     if chance(rng, 0.4):
